@@ -124,19 +124,22 @@ impl Runner for SubprocessRunner {
                 let kind = err.kind();
                 let (stdout, stderr) = err.capture;
 
-                // windows execution returns [`ErrorKind::BrokenPipe`] in case
-                // anything explicitly runs `exit <code>`
-                let exit = if cfg!(windows) {
-                    let process_result = process.wait().unwrap_or(ExitStatus::Undetermined);
-                    if kind == ErrorKind::TimedOut {
-                        OutputExitStatus::Timeout(testcase.config.timeout.unwrap_or_default())
-                    } else if let ExitStatus::Exited(code) = process_result {
+                let exit = if kind == ErrorKind::TimedOut {
+                    // the time limit only ends the waiting: abort the execution as well, so
+                    // that it does not keep running (and writing) after it was given up on
+                    let _ = process.kill();
+                    let _ = process.wait();
+                    OutputExitStatus::Timeout(testcase.config.timeout.unwrap_or_default())
+                } else if cfg!(windows) {
+                    // windows execution returns [`ErrorKind::BrokenPipe`] in case
+                    // anything explicitly runs `exit <code>`
+                    if let ExitStatus::Exited(code) =
+                        process.wait().unwrap_or(ExitStatus::Undetermined)
+                    {
                         (code as i32).into()
                     } else {
                         OutputExitStatus::Unknown
                     }
-                } else if kind == ErrorKind::TimedOut {
-                    OutputExitStatus::Timeout(testcase.config.timeout.unwrap_or_default())
                 } else {
                     OutputExitStatus::Unknown
                 };
